@@ -153,7 +153,13 @@ def case_strategy(draw, big=False):
         cuts |= {s for s in starts if s > 0 and draw(st.booleans())}
     cuts = sorted(c for c in cuts if 0 < c < total)
     nseg = len(cuts) + 1
-    bursts = draw(st.lists(st.booleans(), min_size=nseg, max_size=nseg)) if nseg <= 64 else [False] * nseg
+    bmode = draw(st.sampled_from(["bool", "bool", "steps"]))
+    if nseg > 64:
+        bursts = [False] * nseg
+    elif bmode == "bool":
+        bursts = draw(st.lists(st.booleans(), min_size=nseg, max_size=nseg))
+    else:
+        bursts = draw(st.lists(st.sampled_from([0, 1, 2, 3, 4, 6, 9, 13, 20, 30, 45, 70]), min_size=nseg, max_size=nseg))
     sched = draw(
         st.one_of(
             st.just({"seed": 0}),
@@ -163,7 +169,7 @@ def case_strategy(draw, big=False):
             st.builds(lambda s, p, pp: {"seed": s, "switch": p, "pprob": pp, "hot": list(HOT)}, st.integers(1, 2**31), st.sampled_from([0.3, 0.7]), st.sampled_from([0.02, 0.1, 0.3])),
         )
     )
-    return {"frames": frames, "cuts": cuts, "bursts": [1 if b else 0 for b in bursts], "sched": sched, "mode": mode}
+    return {"frames": frames, "cuts": cuts, "bursts": [int(b) for b in bursts], "sched": sched, "mode": mode}
 
 
 HOT = ("pop", "peek", "append", "wait_for", "pop_byte", "wait_for_byte", "__len__", "clear", "_process_received_data", "_on_connection_data_received", "queue_block")
@@ -209,6 +215,8 @@ def classify(case):
         cls.append("random-schedule")
     if case["sched"].get("pprob"):
         cls.append("line-preemptions-in-receive-buffer")
+    if any(b > 1 for b in case.get("bursts") or []):
+        cls.append("segment-arrives-mid-processing")
     if any(f.get("n", 0) > 1024 for f in frames):
         cls.append("body>1024")
     if any(l % 1024 == 0 for l in lens):
@@ -234,8 +242,19 @@ def run_case(case):
         rig.frames_out.clear()
         for i, seg in enumerate(segs):
             rig.peer.send(seg)
-            if not (i < len(bursts) and bursts[i]):
+            b = bursts[i] if i < len(bursts) else 0
+            if not b:
                 r = w.sim.settle()
+            elif b > 1:
+                # the next segment arrives after b-1 scheduling steps: in the middle of whatever the endpoint's threads are
+                # doing with the previous one
+                left = [b - 1]
+
+                def stop(left=left):
+                    left[0] -= 1
+                    return left[0] < 0
+
+                w.sim.pump(stop=stop)
         r = w.sim.settle()
         rig.drain()
         # let select()-timeouts elapse (0.5 s) without reaching the 30 s linktest timer
